@@ -497,7 +497,6 @@ Json random_pattern(sim::Rng& g) {
 }
 
 void generate(sim::Rng& g, const std::string& prop, const std::string& tier, Json& program, sim::Config& cfg) {
-    (void)prop;
     bool thorough = tier == "thorough";
     program = Json::object();
     int nobs = 0;
@@ -525,6 +524,7 @@ void generate(sim::Rng& g, const std::string& prop, const std::string& tier, Jso
         for (int i = 0; i < n; i++) {
             Json op = Json::object();
             int r = (int)g.below(100);
+            if (prop == "C15" && r >= 70) r = 78 + (int)g.below(22);   // data-race runs: more shrink / exists / depth traffic
             if (r < 40) op.set("op", "notify").set("pat", random_pattern(g));
             else if (r < 60) {
                 auto& key = KEYS[g.below((uint32_t)KEYS.size())];
